@@ -4,7 +4,7 @@
 use super::*;
 use linfa_clustering::verif_hooks_c09 as hooks;
 use linfa_clustering::{IncrKMeansError, KMeans, KMeansInit};
-use linfa_nn::distance::{Distance, L1Dist, L2Dist, LInfDist};
+use linfa_nn::distance::{Distance, L1Dist, L2Dist, LInfDist, LpDist};
 use rand_xoshiro::rand_core::SeedableRng;
 use rand_xoshiro::Xoshiro256Plus;
 
@@ -14,6 +14,8 @@ pub(super) enum Metric {
     L2,
     L1,
     LInf,
+    /// `LpDist(p)`: `(Σ|a-b|^p)^(1/p)`, reduced distance = the distance (trait default); oracle only
+    Lp(f64),
 }
 impl Metric {
     fn name(self) -> &'static str {
@@ -21,6 +23,7 @@ impl Metric {
             Metric::L2 => "l2",
             Metric::L1 => "l1",
             Metric::LInf => "linf",
+            Metric::Lp(_) => "lp",
         }
     }
     fn rdist(self, a: &[f64], b: &[f64]) -> f64 {
@@ -40,6 +43,7 @@ impl Metric {
                 s
             }
             Metric::LInf => a.iter().zip(b).map(|(x, y)| (x - y).abs()).fold(0.0, f64::max),
+            Metric::Lp(pw) => a.iter().zip(b).map(|(x, y)| (x - y).abs().powf(pw)).sum::<f64>().powf(1.0 / pw),
         }
     }
     fn dist(self, a: &[f64], b: &[f64]) -> f64 {
@@ -237,6 +241,35 @@ fn op_km(em: &mut Em, m: Metric, c0: &Rows, batches: &[Rows], tol: f64, seed: u6
         Metric::L2 => km_history(ctx, L2Dist, m, c0, batches, tol, seed),
         Metric::L1 => km_history(ctx, L1Dist, m, c0, batches, tol, seed),
         Metric::LInf => km_history(ctx, LInfDist, m, c0, batches, tol, seed),
+        Metric::Lp(pw) => km_history(ctx, LpDist(pw), m, c0, batches, tol, seed),
+    });
+}
+
+/// the same history with `LpDist(p)` (p = 1.5, 3; powf on both sides: everything judged at 1e-9, exact ties
+/// not judged).  Oracle only: recurrence, cumulative counts, inertia and — the point of this variant — the
+/// truthful converged / not-converged report for a metric whose reduced distance is the distance itself.
+fn op_km_lp(em: &mut Em, pw: f64, c0: &Rows, batches: &[Rows], tol: f64, seed: u64) {
+    let op = format!("#km_lp pw={} tol={} c0={} x={}", hex64(pw), hex64(tol), list2(c0.iter().map(|x| x.iter()), |x| hex64(*x)), list3(batches.iter().map(|r| r.iter().map(|x| x.iter())), |x| hex64(*x)));
+    case_t(em, op, "km_lp", |ctx| {
+        let p = c0[0].len();
+        let k = c0.len();
+        let m = Metric::Lp(pw);
+        let params = KMeans::params_with(k, Xoshiro256Plus::seed_from_u64(seed), LpDist(pw)).tolerance(tol).init_method(KMeansInit::Precomputed(arr2(c0, p))).check().expect("valid k-means parameters");
+        let mut model: Option<KMeans<f64, LpDist<f64>>> = None;
+        let mut rp = Replay { cs: c0.clone(), cnt: vec![0; k], sums: vec![vec![0.0; p]; k], c0: c0.clone(), tainted: false };
+        for (bi, b) in batches.iter().enumerate() {
+            let ds = DatasetBase::from(arr2(b, p));
+            let (mo, conv) = match params.fit_with(model.take(), &ds) {
+                Ok(mo) => (mo, true),
+                Err(IncrKMeansError::NotConverged(mo)) => (mo, false),
+                Err(e) => panic!("unexpected error {}", e),
+            };
+            let got_cs = to_rows(mo.centroids());
+            let got_cnt: Vec<f64> = mo.cluster_count().to_vec();
+            km_batch_oracle(ctx, "km_lp", bi, m, &mut rp, b, tol, &got_cs, &got_cnt, conv, mo.inertia(), 1e-9);
+            model = Some(mo);
+        }
+        "-".to_string()
     });
 }
 
@@ -391,6 +424,7 @@ fn op_km_init(em: &mut Em, m: Metric, init: Init, k: usize, n_runs: usize, batch
             Metric::L2 => km_init_history(ctx, L2Dist, m, init, k, n_runs, batches, tol, seed),
             Metric::L1 => km_init_history(ctx, L1Dist, m, init, k, n_runs, batches, tol, seed),
             Metric::LInf => km_init_history(ctx, LInfDist, m, init, k, n_runs, batches, tol, seed),
+            Metric::Lp(pw) => km_init_history(ctx, LpDist(pw), m, init, k, n_runs, batches, tol, seed),
         }
         "-".to_string()
     });
@@ -416,6 +450,9 @@ pub(super) fn run(em: &mut Em, rng: &mut Rng) {
         op_km(em, m, &c0, &batches, tol, seed);
         if i % 4 == 0 {
             op_km_f32(em, &c0, &batches, tol, seed);
+        }
+        if i % 4 == 1 {
+            op_km_lp(em, *rng.pick(&[1.5, 3.0]), &c0, &batches, tol, seed);
         }
     }
     // first-batch initialisation inside fit_with(None, ..)
